@@ -101,3 +101,89 @@ def save_traced(scn, path, **kw):
     finally:
         del om.reconstruct
     return box.get("pre"), T.managers_text(scn)
+
+
+class PullTrace:
+    """records what every `construct` pulls: per constructed object the dict of constructor parameters"""
+    def __init__(self):
+        self.frames = {}
+        self.keep = []
+        self.stack = []
+
+    @contextlib.contextmanager
+    def active(self):
+        from AoE2ScenarioParser.objects.aoe2_object import AoE2Object
+        from AoE2ScenarioParser.sections.retrievers.retriever_object_link import RetrieverObjectLink as ROL
+        from AoE2ScenarioParser.sections.retrievers.retriever_object_link_group import RetrieverObjectLinkGroup as ROLG
+        orig_c = AoE2Object.__dict__["construct"].__func__
+        orig_p, orig_g = ROL.pull, ROLG.pull
+        T = self
+
+        def construct(cls, uuid, number_hist=None, progress=None):
+            frame = {"cls": cls, "params": {}}
+            T.stack.append(frame)
+            try:
+                obj = orig_c(cls, uuid, number_hist, progress)
+            finally:
+                T.stack.pop()
+            T.frames[id(obj)] = frame
+            T.keep.append(obj)
+            return obj
+
+        def pull(self, *a, **k):
+            r = orig_p(self, *a, **k)
+            if T.stack:
+                T.stack[-1]["params"].update(r)
+            return r
+
+        def gpull(self, *a, **k):
+            r = orig_g(self, *a, **k)
+            if T.stack:
+                T.stack[-1]["params"].update(r)
+            return r
+        AoE2Object.construct = classmethod(construct)
+        ROL.pull, ROLG.pull = pull, gpull
+        try:
+            yield self
+        finally:
+            AoE2Object.construct = classmethod(orig_c)
+            ROL.pull, ROLG.pull = orig_p, orig_g
+
+    def _canon(self, v):
+        import struct
+        if isinstance(v, float):
+            try:
+                b = struct.pack("<f", v)
+                if struct.unpack("<f", b)[0] == v or v != v:
+                    return "f" + b.hex()
+            except OverflowError:
+                pass
+            return "f" + struct.pack("<d", v).hex()
+        if isinstance(v, list):
+            return "[" + ",".join(self._canon(x) for x in v) + "]"
+        return cc.canon(v)
+
+    def obj_text(self, obj):
+        frame = self.frames[id(obj)]
+        parts = []
+        for link in flatten(frame["cls"]):
+            v = frame["params"].get(link.name, None)
+            if link.process_as_object is not None and v is not None:
+                parts.append("[" + ",".join(self.obj_text(o) for o in v) + "]")
+            elif v is None:
+                parts.append("N")
+            else:
+                parts.append(self._canon(v))
+        return "{" + ",".join(parts) + "}"
+
+    def managers_text(self, scn):
+        return "[" + ",".join(self.obj_text(m) for m in scn._object_manager.managers.values()) + "]"
+
+
+def load_traced(path):
+    """AoE2DEScenario.from_file(path) while recording what the managers' constructors receive. Returns (scenario, text)."""
+    from AoE2ScenarioParser.scenarios.aoe2_de_scenario import AoE2DEScenario
+    T = PullTrace()
+    with T.active():
+        scn = AoE2DEScenario.from_file(path)
+    return scn, T.managers_text(scn)
